@@ -579,7 +579,7 @@ fn odd_name_slice(ctx: &mut Ctx) {
 fn long_exact(t: Tier) -> usize {
     t.pick(24, 28)
 }
-const LONG_REFUSAL: [usize; 2] = [33, 37];
+const LONG_REFUSAL: [usize; 6] = [33, 34, 35, 36, 37, 38];
 
 /// Long names against patterns whose whole-path match needs the engine to give up many partial
 /// matches first: a prefix-first alternation followed by an ambiguous starred group,
